@@ -12,6 +12,7 @@ import importlib
 import json
 import os
 import sys
+import time
 import traceback
 
 sys.path.insert(0, os.path.dirname(os.path.abspath(__file__)))
@@ -81,7 +82,7 @@ def main() -> int:
         f"{pid} tier={args.tier} seed={seed} states={ev.states} transitions={ev.transitions} "
         f"validated={ev.validated} nontrivial={ev.nontrivial} observed_distinct={ev.observed_distinct} "
         f"violations={nviol} known={nknown} exhaustive={ev.exhaustive and not ev.caps_hit} "
-        f"wall={ev.extra.get('wall_hint', '')}"
+        f"wall={time.time() - ev.t0:.1f}s"
     )
     if nviol:
         return 1
